@@ -98,6 +98,9 @@ CANARY_FILTERS = [
     'x == getattr("a","upper")', 'x == type("a")', 'x == __class__("a")', 'x == exit("1")', 'x == setattr("a")', 'x == vars("a")', 'x == dir("a")',
     'x == 5__import__', 'x == 5CANARY', 'CANARY', 'CANARY.append', '__import__', 'exec', 'x == [CANARY("a")]', 'x == {a:exec("1")}', 'x == C(1,2) or CANARY',
     'x == 2020-01-01T00:00:00Z CANARY', 'not exec', 'exec->eval', 'x->__class__', 'x == true and eval', 'lambda', 'x == Bin(exec)', 'x == Bin(CANARY.append(1))',
+    # type names that are also names of codecs, modules, units: a literal's type name selects nothing outside the filter
+    'x == rot13("abc")', 'x != uu_codec("abc")', 'x == punycode("abc")', 'x == idna("a") or x == cp037("abc")', 'x == quopri("a=b")', 'x == bz2_codec("abc")', 'x == os("abc")',
+    'x == json("abc") or x == Decimal("1.5")', 'y < 3zorkmid', 'y == 1antigravity',
     'x == hex("00") or y == b64("AA==")', 'x == NOT_FOUND("a")', 'x == _get_path("a")', 'x == filter_function("y == exec(\\"1\\")")',
 ]
 
@@ -178,6 +181,37 @@ def state_changes(before, after):
     return out
 
 
+def pint_canary(hz):
+    """with pint units switched on: a filter holding an unknown unit leaves the shared unit registry as it was.  -> list of (text, problem)"""
+    problems = []
+    try:
+        import pint  # noqa
+    except Exception:
+        return problems
+    try:
+        hz.use_pint(True)
+    except Exception:
+        return problems
+    try:
+        ureg = hz.ureg
+        names = ['zorkmid', 'blorpunit', 'qqzz']
+        g = hz.Grid(version='3.0', columns=[('id', []), ('power', [])])
+        g.append({'id': 'a', 'power': 5})
+        for n in names:
+            text = 'power < 3%s' % n
+            before = (n in ureg)
+            with contextlib.redirect_stdout(io.StringIO()), contextlib.redirect_stderr(io.StringIO()):
+                try:
+                    g.filter(text)
+                except Exception:
+                    pass
+            if (n in ureg) != before:
+                problems.append((text, 'the unit %r named by the filter is now defined in the shared unit registry (hszinc.ureg)' % n))
+    finally:
+        hz.use_pint(False)
+    return problems
+
+
 def audit_run(hz, texts):
     """run Grid.filter for each text under an audit hook; -> list of (text, problem)"""
     import warnings
@@ -190,7 +224,7 @@ def audit_run(hz, texts):
         with contextlib.redirect_stdout(io.StringIO()), contextlib.redirect_stderr(io.StringIO()):
             wg = hz.Grid(version='3.0', columns=[('id', []), ('x', [])])
             wg.append({'id': 'a', 'x': 1})
-            for w in ('x == 2020-01-01T00:00:00+01:00 Paris', 'x == 2020-01-01T00:00:00Z', 'x == 5kW and x != `u` or not x->y', 'x == [1, {a:"b"}, Tx("p")]'):
+            for w in ('x == 2020-01-01T00:00:00+01:00 Paris', 'x == 2020-01-01T00:00:00Z', 'x == 5kW and x != `u` or not x->y', 'x == [1, {a:"b"}, Tx("p")]', 'x == 2020-02-29 or x == 12:30:00'):
                 try:
                     wg.filter(w)
                 except Exception:
@@ -219,6 +253,7 @@ def audit_run(hz, texts):
         state['events'], state['sources'] = [], []
         builtins.CANARY[:] = []
         before_state = global_state()
+        before_modules = set(sys.modules)
         state['armed'] = True
         try:
             # the interpreter's default warning filters (what a program that did not configure warnings has): a warning raised
@@ -238,6 +273,15 @@ def audit_run(hz, texts):
         changed = state_changes(before_state, after_state)
         if changed:
             problems.append((text, 'module-level state changed: %s' % ', '.join(changed[:4])))
+        # a module that appears during evaluation and whose name is spelled in the filter text was chosen by the filter (the
+        # standard library's own lazy imports, e.g. _strptime on the first date literal, are not)
+        import re as _re
+        toks = set(_re.sub(r'[^a-z0-9]', '', t.lower()) for t in _re.findall(r'[A-Za-z_][A-Za-z0-9_]*', text))
+        toks = set(t for t in toks if len(t) >= 2)
+        new_modules = sorted(m for m in set(sys.modules) - before_modules
+                             if any(_re.sub(r'[^a-z0-9]', '', part.lower()) in toks for part in m.split('.')))
+        if new_modules:
+            problems.append((text, 'evaluating the filter imported %s' % ', '.join(new_modules[:4])))
         if outcome.startswith('raised'):
             problems.append((text, 'not a parse error: ' + outcome))
         if outcome == 'evaluated':
